@@ -760,6 +760,17 @@ def rule_bdd5(prog):
         return res[0]
     bad = None
     n = 0
+
+    def outcome(res, what):
+        vs = set()
+        for (p, v) in res:
+            if not isinstance(v, Const):
+                # not folded to a constant: outside the interpreted
+                # fragment, no verdict
+                raise Inconclusive('R-BDD-5', '%s does not fold to a '
+                                   'constant: %r' % (what, v), lo.short())
+            vs.add(v.v)
+        return vs
     for l1 in lists:
         for l2 in lists:
             n += 1
@@ -768,13 +779,11 @@ def rule_bdd5(prog):
             path, o1 = build(I, path, l1)
             path, o2 = build(I, path, l2)
             res = I.compare('==', o1, o2, path, None)
-            vals = set(v.v if isinstance(v, Const) else repr(v)
-                       for (p, v) in res)
+            vals = outcome(res, '%r == %r' % (l1, l2))
             if vals != {l1 == l2} and bad is None:
                 bad = ('==', l1, l2, sorted(map(str, vals)), l1 == l2)
             res = I.compare('!=', o1, o2, path, None)
-            vals = set(v.v if isinstance(v, Const) else repr(v)
-                       for (p, v) in res)
+            vals = outcome(res, '%r != %r' % (l1, l2))
             if vals != {l1 != l2} and bad is None:
                 bad = ('!=', l1, l2, sorted(map(str, vals)), l1 != l2)
     for l1 in lists:
@@ -784,8 +793,7 @@ def rule_bdd5(prog):
         for x in ['a', 'b', 'c', 'z']:
             n += 1
             res = I.contains(o1, Const(x), path, None)
-            vals = set(v.v if isinstance(v, Const) else repr(v)
-                       for (p, v) in res)
+            vals = outcome(res, '%r in %r' % (x, l1))
             if vals != {x in l1} and bad is None:
                 bad = ('in', x, l1, sorted(map(str, vals)), x in l1)
             for y in l1:
@@ -795,8 +803,7 @@ def rule_bdd5(prog):
                 f = prog.method(lo, 'in_order')
                 rr = I.call_function(FRef(f), [o1, Const(x), Const(y)], [],
                                      path.fork(), f.node)
-                vals = set(v.v if isinstance(v, Const) else repr(v)
-                           for (p, v) in rr)
+                vals = outcome(rr, 'in_order(%r, %r) of %r' % (x, y, l1))
                 want = l1.index(x) < l1.index(y)
                 if vals != {want} and bad is None:
                     bad = ('in_order', (x, y), l1, sorted(map(str, vals)),
